@@ -34,3 +34,23 @@ Definition mism_mono := Eval vm_compute in
   failing (fun c : (uxin * Z * Z * res (Z * error) * res (Z * error))%type => let '(i, t1, t2, o1, o2) := c in
     res_ze_matches (coin_hours t1 i) o1 && res_ze_matches (coin_hours t2 i) o2) cases_mono.
 Print mism_mono.
+(* node level: which transactions of an offered block end up in the block the node
+   STORED (re-read from the database). A follower stores the block iff every
+   transaction passes the block rules; an arbitrating publisher stores exactly the
+   transactions that pass them (its fee-sorting step also drops a transaction
+   whose fee is not computable). All offered transactions are structurally valid,
+   correctly signed and spend distinct existing outputs (pre = None). *)
+Definition block_rule_ok (T : Z) (ins : list uxin) (outs : list txout) : bool :=
+  match VerifyBlockTxnConstraints None T ins outs with Val None => true | _ => false end.
+Definition fee_computable (T : Z) (ins : list uxin) (outs : list txout) : bool :=
+  match UxArray_CoinHours T ins, Transaction_OutputHours outs with
+  | Val (hin, None), Val (hout, None) => hout <=? hin
+  | _, _ => false
+  end.
+Definition mism_chain := Eval vm_compute in
+  failing (fun c : (bool * Z * list (list uxin * list txout * bool) * Z)%type => let '(arb, T, txs, extra) := c in
+    let ok := map (fun t : list uxin * list txout * bool => let '(ins, outs, _) := t in
+                     block_rule_ok T ins outs && (negb arb || fee_computable T ins outs)) txs in
+    let expected := if arb then ok else map (fun _ => forallb (fun b => b) ok) ok in
+    eqb_list Bool.eqb expected (map (fun t : list uxin * list txout * bool => snd t) txs) && (extra =? 0)) cases_chain.
+Print mism_chain.
